@@ -106,11 +106,11 @@ CLAIMED = {
         note="HEADER_MISSING_COLUMN_NAMES refers to the line after the header block",
         design="§6 C17"),
     "C02": dict(
-        technique="Lean 4 proof (header print/parse identity C13, render fixpoint C04, line framing lemmas) + writer/reader differential runs + round-trip oracle on three channels",
-        text=("The round trip is the composition of proved pieces: header print -> parse is the identity (C13.print_parse_id), rendered records re-parse to the same values and render to themselves (C04.fixpoint), "
-              "fields joined by TAB split back (TextLemmas), lines joined by LF read back (textLines_join). The writer and reader models are tied to the code by comparing bytes after every call; the oracle writes, "
-              "re-reads and re-writes real files through plain paths, .gz paths and handles, with parsed and API-built values and derived headers."),
-        note="the end-to-end composition theorem is not assembled in Lean (pieces are); gzip / locale encoding are observed",
+        technique="Lean 4 proof (end-to-end: Writer model -> file lines -> Reader model gives back header, columns, records; second write byte-identical) + writer/reader differential runs + round-trip oracle on every channel and reader route",
+        text=("Theorems over the writer and reader models: C02.round_trip_typed (Strict, recognised scheme: same pragmas in order, same column line, same records with equal text and equal typed cells, no errors), C02.rewrite_identical "
+              "(writing the re-read content gives the same bytes), C02.round_trip_schemeless (Silent), C02.header_only_file; kernel-checked counterexamples mark the necessary hypotheses. The models are tied to the code by comparing bytes after every call; "
+              "the oracle writes, re-reads and re-writes real files through plain paths, .gz paths, handles and the constructor, reads back through every reader route, with parsed and API-built values of every type and headers built by every constructor."),
+        note="theorems need values that are the parse of their own text (RecStable; false otherwise: C02.api_value_counterexample, listed as known findings) and LF-free header values; sorting variant not proved in Lean (C10 covers order); gzip / locale encoding are observed",
         design="§6 C02"),
     "C14": dict(
         technique="Lean 4 proof (build loop = declarative resolve; order independence; rejection cases; override MRO) + decide over regenerated definitions + differential runs in many load orders",
@@ -120,12 +120,13 @@ CLAIMED = {
         note="class-level identity under an explicit freshness hypothesis on synthesised names (checked for shipped data); un-linearisable redefinitions (Python TypeError) are outside the model",
         design="§6 C14"),
     "C18": dict(
-        category="fault_enumeration",
-        technique="exhaustive fault injection at every I/O call of the sorter (Lean effect model pending)",
-        text=("For each workload the fault-free run fixes the sequence of I/O calls (mkstemp, gzip.open, write, read, handle.close, os.close, os.remove); one run per call position injects OSError there; after close() the temp "
-              "directory, the mkstemp descriptors and gzip handles are inspected, and propagation of the failure to the caller is checked; plus early abandonment and a sorting writer. This is enumeration of fault positions on the "
-              "implementation, not a proof: a Lean effect model of the bookkeeping is planned (DESIGN.md §6 C18)."),
-        note="Linux close semantics assumed for failed close(); CPython refcounting for abandoned generators",
+        technique="Lean 4 proof over an effect model of the sorter's spill-file bookkeeping (every workload, every fault position) + exact I/O-trace correspondence under fault injection + leak/propagation oracle on the implementation",
+        text=("Model/Resources.lean transcribes Sorter.add/__spill/iteration/close call for call over a resource state (files, descriptors, handles, one-shot fault plan). Theorems for every n, capacity, spill policy, abandonment point and fault position: "
+              "C18.no_leak (after close nothing is left), propagates / raised_only_ioErr / raises_only_if_fired (the injected failure reaches the caller, nothing else is raised), clean_run (fault-free: complete sorted output, nothing left), "
+              "close_idempotent, close_failure_recoverable (a failed close can be retried), invariant_after_add. Tied by comparing the model's and the implementation's exact I/O call trace for every fault position of each workload; "
+              "the oracle inspects the temp directory, descriptors and handles after close(), checks propagation, and runs fault plans the model cannot express (persistent and multiple faults with a retried close, EOFError / zlib errors and real truncation on reads, "
+              "a caller that carries on after a failure, sorting writers) on the implementation only."),
+        note="the OS really closing/removing, CPython refcounting of abandoned generators, and multi-fault / non-OSError plans are observed on the implementation, not proved; the sorting writer's completeness clause is oracle-only",
         design="§6 C18"),
     "C19": dict(
         technique="Lean 4 proof (look-ahead invariants of reader / overlap / sorter state machines) + instrumented iterators and handles on the implementation",
@@ -134,11 +135,11 @@ CLAIMED = {
         note="buffering below handle.write() is not observed",
         design="§6 C19"),
     "C20": dict(
-        category="translation_validation",
-        technique="registry state machine model run against fresh interpreters per history + monotonicity / first-class oracle (Lean theorems pending)",
-        text=("The registry model (built-in definitions regenerated from the source + accumulated extras, rebuilt by the proved scheme builder) is compared with the real process-global registry on histories of registrations, lookups, "
-              "header validation and reads, one fresh interpreter per history; the oracle checks that registered schemes resolve and validate as built-ins do, built-ins are unchanged and earlier registrations survive later ones."),
-        note="theorems about the registry state machine are not yet stated in Lean; C14's theorems cover the builder it calls",
+        technique="Lean 4 proof over the registry state machine (monotone, failed registration is a no-op, registered definitions resolve and validate like built-ins, built-ins unchanged) + histories replayed on fresh interpreters + first-class oracle",
+        text=("Model/Registry.lean: built-in definitions regenerated from the source plus accumulated extras, rebuilt by the proved scheme builder (C14). Theorems: C20.monotone, monotone_history, history_prefix, failed_registration_noop, register_fails_iff, "
+              "resolves / registry_finds (every registered definition resolves to a scheme with the declarative layout), first_class / version_accepted / annotation_accepted (header validation treats it as a built-in), builtins_unchanged / layout_unchanged. "
+              "Tied by running histories of registrations, lookups, header validation, Strict reads and write/read-back on the model and on a fresh interpreter per history; the oracle checks resolution, layout = base + new - filtered, validation, and that earlier registrations and built-ins survive."),
+        note="name shapes of versions/annotations and the Strict read/round-trip steps are implementation-side; theorems assume column names of a definition are distinct and annotations non-empty (checked for the shipped data)",
         design="§6 C20"),
 }
 
